@@ -128,14 +128,20 @@ impl Sq {
 
     /// Concrete fact the model treats axiomatically: is line (axis, i) a Reed-Solomon codeword?
     pub fn line_is_codeword(&self, axis: AxisType, i: usize) -> bool {
-        let line: Vec<Vec<u8>> = self.eds.axis(axis, i as u16).unwrap().iter().map(|s| s.to_vec()).collect();
-        let mut enc: Vec<Vec<u8>> = line[..self.k].to_vec();
-        enc.resize(self.w, vec![0; SHARE_SIZE]);
-        if leopard_codec::encode(&mut enc, self.k).is_err() {
-            return false;
-        }
-        enc == line
+        line_is_codeword(&self.eds, axis, i)
     }
+}
+
+pub fn line_is_codeword(eds: &ExtendedDataSquare, axis: AxisType, i: usize) -> bool {
+    let w = eds.square_width() as usize;
+    let k = w / 2;
+    let line: Vec<Vec<u8>> = eds.axis(axis, i as u16).unwrap().iter().map(|s| s.to_vec()).collect();
+    let mut enc: Vec<Vec<u8>> = line[..k].to_vec();
+    enc.resize(w, vec![0; SHARE_SIZE]);
+    if leopard_codec::encode(&mut enc, k).is_err() {
+        return false;
+    }
+    enc == line
 }
 
 /// Scaling of abstract indices 0..wabs to a concrete width: abstract index a stands for the block
